@@ -228,21 +228,27 @@ class Rdataset(dns.set.Set):
         #
         if self.rdclass != rd.rdclass or self.rdtype != rd.rdtype:
             raise IncompatibleTypes
-        if ttl is not None:
-            self.update_ttl(ttl)
         if self.rdtype == dns.rdatatype.RRSIG or self.rdtype == dns.rdatatype.SIG:
             covers = rd.covers()
             if len(self) == 0 and self.covers == dns.rdatatype.NONE:
                 self.covers = covers
             elif self.covers != covers:
                 raise DifferingCovers
+        if ttl is not None:
+            self.update_ttl(ttl)
         if dns.rdatatype.is_singleton(rd.rdtype) and len(self) > 0:
             self.clear()
         super().add(rd)
 
     def union_update(self, other):
+        ttl = self.ttl
         self.update_ttl(other.ttl)
-        super().union_update(other)
+        try:
+            super().union_update(other)
+        except Exception:
+            # a refused merge must not leave its TTL behind
+            self.ttl = ttl
+            raise
 
     def intersection_update(self, other):
         self.update_ttl(other.ttl)
@@ -255,8 +261,14 @@ class Rdataset(dns.set.Set):
         :type other: :py:class:`dns.rdataset.Rdataset`
         """
 
+        ttl = self.ttl
         self.update_ttl(other.ttl)
-        super().update(other)
+        try:
+            super().update(other)
+        except Exception:
+            # a refused merge must not leave its TTL behind
+            self.ttl = ttl
+            raise
 
     def _rdata_repr(self):
         def maybe_truncate(s):
